@@ -64,7 +64,7 @@ RelFrames ==
     \cup { [RF("APP", 0, FALSE) EXCEPT !.hdr = h] :
              h \in {"nosender", "notarget", "swapped", "wrongS", "wrongT", "noseq", "badbs"} }
 RelSends ==
-    { RS("APP", "11=s1"), RS("LOGON", ""), RS("LOGOUT", ""), RS("HB", ""),
+    { RS("APP", "11=s1"), RS("APP", "11=BADENC"), RS("LOGON", ""), RS("LOGOUT", ""), RS("HB", ""),
       [RS("TR", "") EXCEPT !.trid = "9"], [RS("TR", "") EXCEPT !.trid = "match"],
       [RS("SEQRESET", "") EXCEPT !.gf = TRUE],   \* no MsgSeqNum: EncodingError
       [RS("APP", "11=s2") EXCEPT !.pd = TRUE, !.seqm = "rel", !.seqv = -1],
